@@ -83,8 +83,9 @@ def c09_decls(tier, seed=0):
                             continue
                         if K == 0:
                             continue   # `[T; 0]` makes the macro's usize arithmetic underflow: outside the rule's grammar of K>=... kept out (see DESIGN)
-                        add(W, [Field("f", _ty_for(kind, n), [(lo, n)], array=(K, stride))],
-                            f"array [{kind}{n}; {K}] at {lo} stride {stride}")
+                        sty = ("std", "stride_first", "access_first_colon", "stride_mid")[(K + lo + (stride or 0)) % 4]
+                        add(W, [Field("f", _ty_for(kind, n), [(lo, n)], array=(K, stride), style=sty)],
+                            f"array [{kind}{n}; {K}] at {lo} stride {stride} ({sty} spelling)")
                 # last element exactly reaching / overshooting with a wide stride
                 for stride in (n + 2,):
                     for K in (2, 3):
